@@ -162,6 +162,9 @@ func c16Run(arbitraryStart bool) {
 	cmd := &ExecutorCommand_Transition{Transitioner: client.Transitioner}
 	cmd.Event, cmd.Source, cmd.Destination = evt, src, dst
 	final, err := cmd.Commit()
+	// what goes back to the core: the response the executor builds from the outcome (ControllableTask.Transition)
+	resp := cmd.PrepareResponse(err, final, "task-1")
+	vrt.Assert(resp != nil && resp.CurrentState == final && (resp.Err() != nil) == (err != nil), "response-to-the-core-carries-the-reported-state-and-the-error")
 
 	stepsIssued := len(dev.calls) > 0
 	if evt == "GO_ERROR" || evt == "RECOVER" {
